@@ -104,6 +104,30 @@ def ref_rows_from_reads(k):
     return [r0, r1]
 
 
+def affine_indices(k):
+    """three reads whose indices are different affine functions of one index wire (a selector memo keyed by the wires alone)"""
+    A = k.ar.Array(cells(k, 3, True))
+    i = k.S("i")
+    return [A[i + 1], A[i + 2], A[2 * i + 2]]
+
+
+def two_index_wires(k):
+    """two index wires that may hold the same value, a write between the reads (a selector memo keyed by the value)"""
+    A = k.ar.Array(cells(k, 3, True))
+    i, j = k.S("i"), k.S("j")
+    r0 = A[i]
+    A[j] = k.S("y")
+    return [r0, A[j], A[i]]
+
+
+def write2d_then_read(k):
+    """an in-range 2-D write, then a read of another array: the second access is range-checked like the first"""
+    M = k.ar.Array([k.ar.Array(cells(k, 2, True, "a")), k.ar.Array(cells(k, 2, True, "b"))])
+    M[k.S("i"), k.S("j")] = k.S("y")
+    B = k.ar.Array([k.S("a0") + 1, k.S("a1") + 2, k.S("b0") + 3])
+    return B[k.S("t")]
+
+
 def seq_wrw(k):
     A = k.ar.Array(cells(k, 2, True))
     A[k.S("i")] = k.S("y")
@@ -229,6 +253,15 @@ def build(n=4, tier="quick"):
         lambda k: inrange(k.v("i"), 2) & inrange(k.v("j"), 2), {"seq"})
     add("rows_from_reads_then_write", rows_from_reads_then_write, ("a0", "a1", "b0", "b1", "p", "j", "y"), ref_rows_from_reads,
         lambda k: inrange(k.v("p"), 2) & inrange(k.v("j"), 2), {"seq", "2d"})
+    add("affine_indices", affine_indices, ("a0", "a1", "a2", "i"),
+        lambda k: [sel(k.v("i") + 1, cvals(k, 3, True)), sel(k.v("i") + 2, cvals(k, 3, True)), sel(2 * k.v("i") + 2, cvals(k, 3, True))],
+        lambda k: inrange(k.v("i") + 1, 3) & inrange(k.v("i") + 2, 3) & inrange(2 * k.v("i") + 2, 3), {"seq", "memo"})
+    add("two_index_wires", two_index_wires, ("a0", "a1", "a2", "i", "j", "y"),
+        lambda k: [sel(k.v("i"), cvals(k, 3, True)), k.v("y") + 0 * k.v("j"), sel(k.v("i"), upd(k.v("j"), cvals(k, 3, True), k.v("y")))],
+        lambda k: inrange(k.v("i"), 3) & inrange(k.v("j"), 3), {"seq", "memo"})
+    add("write2d_then_read", write2d_then_read, ("a0", "a1", "b0", "b1", "i", "j", "y", "t"),
+        lambda k: sel(k.v("t"), [k.v("a0") + 1, k.v("a1") + 2, k.v("b0") + 3]),
+        lambda k: inrange(k.v("i"), 2) & inrange(k.v("j"), 2) & inrange(k.v("t"), 3), {"seq", "2d"})
     add("same_index_two_arrays", same_index_two_arrays, ("a0", "a1", "a2", "b0", "b1", "i", "y"), ref_same_index_two_arrays,
         lambda k: inrange(k.v("i"), 2), {"seq", "shared_index"})
     add("same_index_rect", same_index_rect, ("a0", "a1", "b0", "b1", "c0", "c1", "i"), ref_same_index_rect,
